@@ -97,6 +97,8 @@ pub fn environment(key: u64) -> Vec<(&'static str, Option<String>)> {
 
 /// Apply the simulated environment. Called before the task threads of an execution exist.
 pub fn apply_environment(key: u64) {
+    // (the working directory is left alone: the panic hook's symbolisation of backtraces was
+    // observed to depend on it, which made panic fingerprints differ between executions)
     for (name, value) in environment(key) {
         // SAFETY: no other thread of this process reads or writes the environment here - the
         // worker is single threaded between executions
